@@ -147,7 +147,7 @@ def normalize_impl(lines):
     """drop the driver-only trailing field (specification-level tracking flag) of read / track lines and the driver-only write lines"""
     out = []
     for l in lines:
-        if l.startswith("write "):        # driver-only: the position of a notifying write inside the statement
+        if l.startswith("write ") or l.startswith("disp ") or l.startswith("dispend "):        # driver-only: the position of a notifying write / of a disposal inside the statement
             continue
         if l.startswith("read ") or l.startswith("track "):
             l = l.rsplit(" ", 1)[0]
